@@ -37,7 +37,7 @@ def plan_C15(tier, seed):
         Job("table-rel", "rel", "c15", n + 1, {"max_len": n}, nshards=min(16, n + 1), crash_is_violation=True),
         # the cell table (all six type shapes, incl. the ones with drop glue) under Miri: a combinator that
         # duplicates, forgets or reads a moved-out value is undefined behaviour / a leak there
-        Job("table-miri", "miri-san", "c15", q(tier, 1, 4), {"max_len": 3}, nshards=q(tier, 1, 4), crash_is_violation=True,
+        Job("table-miri", "miri-san", "c15", q(tier, 1, 4), {"max_len": 3, "subset": q(tier, 1, 0)}, nshards=q(tier, 1, 4), crash_is_violation=True,
             wall_limit=1800),
     ]
     return {
@@ -46,7 +46,8 @@ def plan_C15(tier, seed):
         "rule": "case 0 enumerates every cell of (combinator x receiver case {Fallthrough,Res(Ok),Res(Err)} x closure "
                 "return case [x mutate]) for or_parse, or_always_parse, or_give_up, optional, matches, and_then, and_also, "
                 "and_do, map, map_err, err_into, From<Result> and ResultExt::{err_into,and_also,and_do}, plus the closure-taking "
-                "combinators once more with a zero-sized value type (); the whole table is instantiated for several shapes of the "
+                "combinators once more with a zero-sized value type () and once more with callables that capture 320 bytes by "
+                "value; the whole table is instantiated for several shapes of the "
                 "value/error types - thirteen - (4-byte; odd-sized (u32,(u8,u16)); 136-byte and 328-byte arrays, i.e. Parsed larger than 128 "
                 "bytes; String and Box payloads with drop glue; u128 and #[repr(align(64))] payloads, i.e. over-aligned; five more where the types that map / "
                 "and_then / err_into / map_err convert TO differ in size from the ones they convert FROM: widening 4->16, 16->32, "
@@ -56,11 +57,12 @@ def plan_C15(tier, seed):
                 "the documentation. Cases k>=1 enumerate all token strings of length k-1 over {a,b,c,d,e,z} through a composed "
                 "grammar and compare result and closure-invocation trace with a direct reference. Distinct = distinct cell "
                 "names + distinct token strings of length >= 2; every cell is non-trivial (each is a different row of the "
-                "specification). Run in the chk (debug assertions) and rel builds, and the cell table also under Miri.",
+                "specification). Run in the chk (debug assertions) and rel builds, and the cell table also under Miri (quick "
+                "tier: the six shapes with drop glue, large moves or over-alignment; thorough tier: all).",
         "jobs": jobs,
         "primary_jobs": ["table-chk"],
         "eval_counters": ["cells", "grammar_strings"],
-        "floors": {"cells": 2 * 13 * 92, "shapes": 2 * 13, "distinct_nontrivial": 13 * 92},
+        "floors": {"cells": 2 * 13 * 131 + 6 * 131, "shapes": 2 * 13 + 6, "distinct_nontrivial": 13 * 131},
         "assumptions": ["the specification table in harness/src/c15.rs is written from the rustdoc of flussab::Parsed/ResultExt"],
     }
 
@@ -333,6 +335,7 @@ def plan_C04(tier, seed):
     ]
     fl = dict(PARSER_FLOORS)
     fl.update({"parser:log": 100, "fault_runs": q(tier, 5_000_000, 250_000_000), "final_io": 1_000_000,
+               "fault_runs_with_a_failure_that_is_not_repeated": 1_000_000,
                "final_fault_free_syntax_error_before_fault": 100_000, "accepted_ending_in_comment": 200,
                "accepted_ending_in_node_comment": 100, "accepted_without_final_newline": 500,
                "distinct_nontrivial": q(tier, 1_000_000, 2_000_000)})
@@ -346,7 +349,8 @@ def plan_C04(tier, seed):
                 "from_boxed_dyn_read, from_buf_reader with a prefilled BufReader, new on an advanced reader, new on a reader "
                 "that had already looked ahead to the end so that data and error are parked in it before parsing starts; "
                 "one run in eleven with 129..1000 consecutive Interrupted results first) and then fails "
-                "forever with an error whose ErrorKind is drawn per run from 19 non-Interrupted kinds (Other, BrokenPipe, "
+                "- forever, or only once and then reports a plain end of input, or only once and then goes on delivering "
+                "(a third of the second runs each) - with an error whose ErrorKind is drawn per run from 19 non-Interrupted kinds (Other, BrokenPipe, "
                 "UnexpectedEof, WouldBlock, TimedOut, ConnectionReset, ..., AddrNotAvailable). Oracle: final result "
                 "never End; it is Io, or the fault-free run's Syntax(line,col) provided that run (1-byte reads, chunk 1, whose "
                 "read-call count is exactly how far the parser looked) looked at <= k bytes; every item handed out equals the "
@@ -488,7 +492,8 @@ def plan_C06(tier, seed):
                 "index < section count; BTOR2: ids/widths/indices exact in u64, ids and widths non-zero. Whenever the parser "
                 "ACCEPTS, the reference must accept too with identical items. AIGER inputs are read a third time through the "
                 "section readers with a random pattern of moving on early (none / one entry of a section taken): accepted means "
-                "the reference accepts and the entries handed out are those the text has at these places. Half of the inputs come from the shared corpus, "
+                "the reference accepts and the entries handed out are those the text has at these places. One shared-corpus "
+                "input in 300 is a large document (an AIGER section / DIMACS clause / BTOR2 line with 4095..12000 entries). Half of the inputs come from the shared corpus, "
                 "half from a limit-aimed generator (one number token of a well-formed document moved to limit-1 / limit / "
                 "limit+1 / 10*limit / +-1 / 2^64, both signs, 0..30 leading zeros). Non-trivial = accepted input with >= 2 items, "
                 "or a limit-aimed input rejected by both; distinct by hash of (bytes, parser config).",
@@ -602,6 +607,9 @@ def plan_C10(tier, seed):
         # solver logs: the result (status + a short assignment) is tiny, the bytes are comments / ignored lines
         Job("log-rel", "rel", "c10", 48, {"mib": q(tier, 32, 256), "log": 1}, crash_is_violation=True, wall_limit=7200),
         Job("log-chk", "chk", "c10", 48, {"mib": q(tier, 8, 64), "log": 1}, crash_is_violation=True, wall_limit=7200),
+        # record consumers on a bare DeferredReader, each using one family of look-ahead calls only
+        Job("raw-rel", "rel", "c10", 48, {"mib": q(tier, 32, 256), "raw": 1}, crash_is_violation=True, wall_limit=7200),
+        Job("raw-chk", "chk", "c10", 48, {"mib": q(tier, 8, 64), "raw": 1}, crash_is_violation=True, wall_limit=7200),
     ]
     if tier == "thorough":
         jobs.append(Job("stream-1g", "rel", "c10", 24, {"mib": 1024}, crash_is_violation=True, wall_limit=7200))
@@ -626,13 +634,19 @@ def plan_C10(tier, seed):
                 "bound). Solver logs are streamed the same way in a grid of their own (3 line mixes: comment lines in strict "
                 "mode / one run of lines to be ignored and blank lines / comments, ignored lines, blank lines and a value line "
                 "every 70000 lines - x 4 chunk sizes x 4 read sizes): the result, status plus at most 83 literals, is the "
-                "only item." % mib,
+                "only item. Record consumers working directly on a DeferredReader have a third grid (4 styles, each using one "
+                "family of look-ahead calls only: request+advance / request_byte_at_offset+advance / request_more+"
+                "advance_with_buf / length-prefixed records via request_byte+request+advance - x 4 chunk sizes x 3 read sizes: "
+                "1 byte, a full chunk, exactly one record per read)." % mib,
         "jobs": jobs, "primary_jobs": ["stream-rel"], "eval_counters": ["streams"],
-        "floors": dict({"streams": 2 * 192 + 2 * 48, "log_streams": 2 * 48, "streams_100x_bound": 150, "items": q(tier, 500_000_000, 4_000_000_000),
+        "floors": dict({"streams": 2 * 192 + 4 * 48, "log_streams": 2 * 48, "raw_streams": 2 * 48, "streams_100x_bound": 150, "items": q(tier, 500_000_000, 4_000_000_000),
                         "distinct_nontrivial": 150},
                        **{"btor_profile:%d" % k: 16 for k in range(3)},
                        **{"log_profile:" + k: 32 for k in ["comment_lines_strict", "run_of_ignored_lines",
                                                             "mixed_with_value_lines"]},
+                       **{"raw_style:" + k: 24 for k in ["request+advance", "request_byte_at_offset+advance",
+                                                          "request_more+advance_with_buf",
+                                                          "length_prefixed:request_byte+request+advance"]},
                        **{"dimacs_profile:" + k: 40 for k in ["clauses_only", "declared_count_then_comment_tail",
                                                                "comment_prelude_before_header",
                                                                "split_clauses_and_comment_blocks"]},
